@@ -4,18 +4,89 @@ from .. import core, paje, tracegen
 
 class C47(core.Prop):
     id = "C47"
-    drivers = [tracegen.DRIVER]
-    sizes = {"quick": 800, "thorough": 30000}
+    drivers = [tracegen.DRIVER, "mpi_interp"]
+    sizes = {"quick": 600, "thorough": 30000}
     max_workers = 6
     technique = ("property-based testing (Hypothesis): generated S4U programs run with generated tracing options; the Paje file is "
                  "judged by an independent validator (validity predicate)")
-    rule = ""
-    assumptions = []
+    rule = ("Class 1 (2/3 of the cases): generated S4U programs (vf/syncgen: 1-4 actors x <= 8 operations over mutexes, mailboxes, execs, "
+            "asynchronous comms, sleeps, on 3 hosts with shared links and a disk) plus actor life-cycle operations inserted at random places "
+            "(spawn of 1-2 templates on any host, kill, set_host on oneself or on another actor, suspend / resume, daemons), categorized execs and "
+            "sends, user marks and user host variables; x a random subset of tracing/actor, uncategorized, categorized, platform, "
+            "platform/topology:no, basic, disable-destroy, disable_link, disable_power, precision 0-12.  Class 2: MPI programs on drivers/mpi_interp "
+            "(1-6 ranks x <= 10 steps: barrier, bcast, reduce, allreduce, gather, scatter, allgather, alltoall, scan, matched send/ssend+recv, "
+            "sendrecv ring, isend/irecv ring + waitall, simulated sleeps; collective selector default / mpich / ompi / mvapich2) x tracing/smpi with "
+            "internals, computing, sleeping, display-sizes, group, basic, uncategorized, platform, disable-destroy, precision.  Oracle: vf/paje.py, "
+            "an independent validator of the Paje file: every event defined in the header with the declared number of fields; container types, "
+            "variable / state / event / link types, entity values and containers defined before use; timestamps never decrease along the file; "
+            "no event on a destroyed container, no double destruction; PajePopState never on an empty stack and nothing left pushed when a "
+            "container goes (unless its actor was killed, or ended with a pending asynchronous comm); every link key started once and ended once.  "
+            "A run that only crashes with tracing on (same program re-run without tracing) or a tracing exception thrown into an operation is a "
+            "violation too.  Non-trivial: a container is created after date 0 or the program has spawn / kill / host change (class 1); >= 2 ranks "
+            "and a collective (class 2).")
+    assumptions = ["consistency that the statement does not demand (a state / variable / link type used on a container of another container type, "
+                   "aliases re-used) is counted as 'remark-*' labels, not reported",
+                   "a state left pushed on the container of an actor that was killed while sleeping / computing / communicating, or that ended with "
+                   "an asynchronous communication still pending, is tolerated",
+                   "TI (time-independent) traces, tracing/vm and the tracing/smpi/format options are not covered",
+                   "programs that do not complete WITHOUT tracing are counted invalid (their crash belongs to other properties)"]
 
     def strategy(self, tier):
-        return tracegen.cases()
+        return tracegen.all_cases()
+
+    def check_mpi(self, case):
+        oc = core.Outcome()
+        res, text = tracegen.run_mpi(case)
+        labels = {"mpi", "np=%d" % case["mpi"]["np"] if case["mpi"]["np"] < 2 else "np>=2"}
+        fail = res.failure()
+        if fail is not None:
+            if fail[0] == "bad-case":
+                raise core.Inconclusive("malformed MPI case: " + fail[1][:300])
+            # does the program complete without tracing?
+            from .. import mpi
+            res2 = mpi.run(dict(case["mpi"], cfg=(["smpi/coll-selector:" + case["selector"]] if case.get("selector") else []), fresh=True))
+            oc.evals = 2
+            if res2.failure() is None:
+                oc.bad("mpi-run-fails-only-with-tracing:" + fail[0], "the MPI program completes without tracing; with tracing: %s: %s" % fail)
+            else:
+                oc.invalid = True
+                oc.info = {"failure": fail[0]}
+            return oc
+        bad, stats = paje.validate(text)
+        seen = set()
+        has_sendrecv = any(o["op"] == "sendrecv" for o in case["mpi"]["prog"])
+        for sig, msg, _ in bad:
+            # MPI_Sendrecv traces its peers by rank where every other call uses actor ids: its link keys never match (a class of its own)
+            cls = "sendrecv:" if has_sendrecv and sig.startswith("link-") else ""
+            if not cls and sig.startswith("link-") and "tracing/smpi/internals" in case["opts"] and \
+                    any(o["op"] == "send" and o.get("mode") == "ssend" for o in case["mpi"]["prog"]):
+                cls = "ssend-with-internals:"         # a synchronous send is traced twice on the sender's side with tracing/smpi/internals
+            sig = "mpi:" + cls + sig
+            if sig not in seen:
+                seen.add(sig)
+                oc.bad(sig, msg)
+        for o in case["opts"]:
+            labels.add(o.replace("tracing/", "opt-"))
+        ops = {o["op"] for o in case["mpi"]["prog"]}
+        coll = ops & {"barrier", "bcast", "reduce", "allreduce", "gather", "scatter", "allgather", "alltoall", "scan"}
+        for k in sorted(coll):
+            labels.add("mpi-" + k)
+        if case.get("selector"):
+            labels.add("selector-" + case["selector"])
+        for k in stats["kinds"]:
+            labels.add("ev-" + k.replace("Paje", ""))
+        if stats["links"]:
+            labels.add("mpi-links")
+        for k in stats["remarks"]:
+            labels.add("remark-" + k)
+        oc.labels = sorted(labels)
+        oc.nontrivial = case["mpi"]["np"] >= 2 and bool(coll)
+        oc.info = {"events": stats["events"], "containers": stats["containers"]}
+        return oc
 
     def check(self, case):
+        if "mpi" in case:
+            return self.check_mpi(case)
         oc = core.Outcome()
         log, text = tracegen.run(case)
         if log.wall_exceeded:
@@ -42,10 +113,21 @@ class C47(core.Prop):
                        "the program completes without tracing; with tracing: " + log.crash_text())
             else:
                 oc.invalid = True          # the program itself does not complete: not a matter of tracing
-                oc.info = {"crash": log.crash_text()[-300:]}
+                oc.info = {"crash": log2.crash_text()[-300:]}
+                import re
+                msgs = [m.group(1) for m in (re.match(r"^\[\s*[\d.]+\] \[[^\]]*\] (.*)$", l) for l in log2.err.splitlines()) if m]
+                oc.labels = ["fails-without-tracing:" + re.sub(r"[^a-z]+", "-", (msgs[-1] if msgs else "rc %s" % log2.rc).lower())[:50]]
             return oc
         bad, stats = paje.validate(text)
         seen = set()
+        # an exception of the tracing layer thrown into an operation of the program (the interpreter logs it and goes on)
+        import re
+        for r in log.ops():
+            if "exc" in r and "not found in parent type" in r["exc"]:
+                sig = "tracing-error-in-operation:" + re.sub(r"[^a-z]+", "-", re.sub(r"\([^)]*\)", "", r["exc"].split(":", 1)[-1].lower())).strip("-")[:50]
+                if sig not in seen:
+                    seen.add(sig)
+                    oc.bad(sig, "operation %r of %s failed with %s" % (r["op"], r["a"], r["exc"]))
         finished = {l["a"] for l in log.of("body_end")}
         # Actor::suspend on a suspended actor / Actor::resume on a running one fire their signals all the same: the trace gets a second push /
         # a pop of a state that was never pushed
@@ -97,6 +179,8 @@ class C47(core.Prop):
             labels.add("container-created-during-run")
         if stats["max_depth"] >= 2:
             labels.add("state-depth>=2")
+        for k in stats["remarks"]:
+            labels.add("remark-" + k)
         for k in stats["kinds"]:
             labels.add("ev-" + k.replace("Paje", ""))
         oc.labels = sorted(labels)
